@@ -404,6 +404,31 @@ type SV struct {
 	MK   []SV   `json:"mk,omitempty"`
 	T    int    `json:"t,omitempty"`
 	Seed int    `json:"seed,omitempty"`
+	// Hop sends the value through one more expression before it is used, so that it
+	// arrives interface-wrapped: "list" [E][0], "rows" [0, E][1], "map" {"k": E}.k,
+	// "mapidx" {"k": E}["k"], "fn" func(a) { return a }(E), "id" id(E) (Go func(interface{}) interface{}).
+	Hop string `json:"hop,omitempty"`
+}
+
+// hopNames are the hops of SV.Hop.
+var hopNames = []string{"list", "rows", "map", "mapidx", "fn", "id"}
+
+func applyHop(hop, e string) string {
+	switch hop {
+	case "list":
+		return "[" + e + "][0]"
+	case "rows":
+		return "[0, " + e + "][1]"
+	case "map":
+		return "{\"k\": " + e + "}.k"
+	case "mapidx":
+		return "{\"k\": " + e + "}[\"k\"]"
+	case "fn":
+		return "func(a) { return a }(" + e + ")"
+	case "id":
+		return "id(" + e + ")"
+	}
+	return e
 }
 
 // binder renders SVs to source and to the Go values the script expression denotes; Go
@@ -425,7 +450,13 @@ func (b *binder) bindGo(v reflect.Value) string {
 }
 
 // render returns the source text of sv and the value it evaluates to (invalid Value = nil).
+// A hop changes the text only: the value that reaches the call is the same.
 func (b *binder) render(sv *SV) (string, reflect.Value) {
+	src, v := b.renderBase(sv)
+	return applyHop(sv.Hop, src), v
+}
+
+func (b *binder) renderBase(sv *SV) (string, reflect.Value) {
 	switch sv.K {
 	case "i":
 		return vals.IntLit(sv.I), reflect.ValueOf(sv.I)
@@ -650,11 +681,13 @@ func descD(v reflect.Value, d int) string {
 		}
 		return "&" + descD(v.Elem(), d+1)
 	case reflect.Struct:
-		if v.Type() != tS {
-			if rv, ok := v.Interface().(reflect.Value); ok {
-				return "reflect.Value(" + descD(rv, d+1) + ")"
+		if v.Type() == reflect.TypeOf(reflect.Value{}) && v.CanInterface() {
+			return "reflect.Value(" + descD(v.Interface().(reflect.Value), d+1) + ")"
+		}
+		for i := 0; i < v.NumField(); i++ {
+			if v.Type().Field(i).PkgPath != "" {
+				return t + "{…}" // foreign struct with unexported fields
 			}
-			return t + "{…}"
 		}
 		parts := make([]string, v.NumField())
 		for i := range parts {
